@@ -25,13 +25,17 @@ CLAUSES = {1: "run_raised", 2: "slices_differ_from_snapshots", 3: "node_paths", 
 
 TRUSTED = [
     "translator/c03.py (python ast -> Gen_C03.src_tables / src_shape: exported and captured containers, time label, which "
-    "to_xarray copies, dims / coordinate origins / dtype conversion, concatenation and dtype restoration in run_pipeline, keys "
-    "of the final tree, debug reference; fails closed on any other shape)",
+    "to_xarray copies, which to_xarray SETS the y / x coordinates (and which only adds them when the stored array has none), "
+    "dims / coordinate origins / dtype conversion, concatenation and dtype restoration in run_pipeline (image only, guarded, "
+    "skipped while the variable has an unsigned type), keys of the final tree, debug reference; fails closed on any other shape)",
     "correspondence harness: harness/props/c03.py generators and literal emitters, harness/drivers/c03.py "
     "(canonical form of the returned DataTree), probes/verif_probes_c03.py (writer models, the last-running recorder)",
-    "modelled, not verified: xarray concat/expand_dims/DataTree (concatenation along time appends the slice of the step and "
-    "keeps integer dtypes; astype to the dtype of the current image), numpy casts and in-place arithmetic, np.allclose on "
-    "exact small integers, which numpy/xarray operations copy a buffer (np.array, astype, .copy) and which do not",
+    "modelled, not verified: xarray concat/expand_dims/DataTree (concatenation along time appends the slice of the step; "
+    "every variable gets numpy's common type of its slices -- Example C03_join_is_numpys states the table --, a missing slice "
+    "counts as float64; widening changes no value; astype to the dtype of the current image), `dataset[key] = data_array` and "
+    "xr.concat leave variables alone whose y / x labels agree (the model has NO result when they differ), numpy casts and "
+    "in-place arithmetic, np.allclose on exact small integers, which numpy/xarray operations copy a buffer (np.array, astype, "
+    ".copy) and which do not",
     "time labels on the 1/8 s grid (float64 start + t exact); array values are integers exactly representable in their dtype",
 ]
 
@@ -47,10 +51,14 @@ FLOAT_EXACT = dict(float16=2 ** 11, float32=2 ** 24, float64=2 ** 53)
 WIDER = dict(float16="float32", float32="float64", uint8="uint16", uint16="uint32", uint32="uint64")
 
 
+def dtype_at(a, i) -> str:
+    return a["dtypes"][i] if a.get("dtypes") else a["dtype"]
+
+
 def simulate(c) -> list:
     """What the writer probes do to the five containers, step by step (python twin of Model/Result.v
     apply_write, used ONLY to keep generated values inside the exactly representable range of their dtype).
-    -> [(bucket, dtype of the buffer, largest value, action)] for every write of every step."""
+    -> [(bucket, dtype of the buffer, largest value, action, step)] for every write of every step."""
     n, nel = len(c["times"]), c["rows"] * c["cols"]
     out = []
     pixel = None
@@ -70,12 +78,12 @@ def simulate(c) -> list:
                 if b == "charge":
                     st[b] = ["float64", top + (cur[1] if mode == "iadd" else 0)]
                 elif cur is None or mode == "assign":
-                    st[b] = [a["dtype"], top]
+                    st[b] = [dtype_at(a, i), top]
                 elif mode == "iadd":
                     st[b] = [cur[0], cur[1] + top]
                 else:
                     st[b] = [cur[0], top]
-                out.append((b, st[b][0], st[b][1], a))
+                out.append((b, st[b][0], st[b][1], a, i))
         pixel = st["pixel"]
     return out
 
@@ -83,24 +91,28 @@ def simulate(c) -> list:
 def fit_dtypes(c) -> bool:
     """Widen writer dtypes until every value the probes produce is exactly representable (and, under debug,
     small enough for np.allclose on integers to be equality).  False: give the case up."""
-    for _ in range(8):
+    for _ in range(24):
         bad = None
-        for b, dt, top, a in simulate(c):
+        for b, dt, top, a, i in simulate(c):
             lim = UMAX[dt] if dt in UMAX else FLOAT_EXACT[dt]
             if c["debug"]:
                 lim = min(lim, 90000)
             if top >= lim:
-                bad = (b, dt)
+                bad = (b, dt, i)
                 break
         if bad is None:
             return True
-        b, dt = bad
+        b, dt, i = bad
         if dt not in WIDER:
             return False
         for m in c["models"]:
             for a in m["actions"]:
-                if a.get("kind") == "write" and a["bucket"] == b and a["dtype"] == dt:
-                    a["dtype"] = WIDER[dt]
+                if a.get("kind") == "write" and a["bucket"] == b:
+                    if a.get("dtypes"):
+                        if a["dtypes"][i] == dt:      # widen the dtype written at that step only
+                            a["dtypes"][i] = WIDER[dt]
+                    elif a["dtype"] == dt:
+                        a["dtype"] = WIDER[dt]
     return False
 
 
@@ -110,6 +122,89 @@ def gen_case(r, force=None) -> dict:
         if fit_dtypes(c):
             return c
     raise RuntimeError("C03 generator: no representable case in 50 tries")
+
+
+FLOATS = ["float16", "float32", "float64"]
+UINTS = ["uint8", "uint16", "uint32", "uint64"]
+LABEL_KINDS = ["index", "one_based", "reversed", "half", "big", "negative", "shuffled"]
+CUBE_EXTRAS = ["row_mm", "col_name", "band", "mask", "exposure_id"]
+
+
+def dtype_sequence(r, n, pool) -> list:
+    """A dtype per step, at least two different ones: narrowing, widening, a narrow step in the middle, or any."""
+    for _ in range(20):
+        pat = r.choice(["narrowing", "narrowing", "widening", "dip", "any"])
+        if pat == "any":
+            seq = [r.choice(pool) for _ in range(n)]
+        else:
+            k = min(n, len(pool))
+            picks = sorted(r.sample(range(len(pool)), r.randrange(2, k + 1) if k >= 2 else 1))
+            lad = [pool[j] for j in picks]
+            if pat == "narrowing":
+                lad = lad[::-1]
+            seq = [lad[min(i * len(lad) // n, len(lad) - 1)] for i in range(n)]
+            if pat == "dip" and n >= 3:
+                seq = [lad[-1]] * n
+                seq[r.randrange(1, n - 1)] = lad[0]
+        if len(set(seq)) >= 2:
+            return seq
+    return [pool[-1]] + [pool[0]] * (n - 1)
+
+
+def value_for(r, dt, debug, nelem) -> int:
+    """A base value that the dtype holds exactly (with nelem - 1 added) and that most NARROWER types do not hold."""
+    if dt == "float64":
+        opts = [(2049, 60000), (65505, 80000)] if debug else [(2 ** 24 + 1, 2 ** 24 + 5000), (2 ** 24 + 1, 2 ** 30), (2049, 60000), (65505, 10 ** 6)]
+    elif dt == "float32":
+        opts = [(2049, 60000), (65505, 80000)] if debug else [(2049, 60000), (65505, 2 ** 24 - 5000)]
+    elif dt == "float16":
+        opts = [(1, 1900)]
+    elif dt == "uint64":
+        opts = [(66000, 80000)] if debug else [(2 ** 32 + 5, 2 ** 53 - 10 ** 6), (66000, 10 ** 9)]
+    elif dt == "uint32":
+        opts = [(66000, 80000)] if debug else [(66000, 2 ** 32 - 5000)]
+    elif dt == "uint16":
+        opts = [(257, 60000)]
+    else:
+        opts = [(1, 200)]
+    lo, hi = r.choice(opts)
+    v = r.randrange(lo, hi)
+    return v | 1                   # odd: just above a power of two it has no value in the narrower float type
+
+
+def labels_of(kind, n, r) -> list:
+    if kind == "index":
+        return list(range(n))
+    if kind == "one_based":
+        return list(range(1, n + 1))
+    if kind == "reversed":
+        return list(range(n - 1, -1, -1))
+    if kind == "half":
+        return [i + 0.5 for i in range(n)]
+    if kind == "big":
+        return [1000 + 10 * i for i in range(n)]
+    if kind == "negative":
+        return [-(i + 1) for i in range(n)]
+    lab = list(range(n))
+    r.shuffle(lab)
+    return lab[::-1] if lab == list(range(n)) and n > 1 else lab
+
+
+def gen_cube(r, rows, cols, force=None) -> dict | None:
+    """Coordinates a photon cube carries besides `wavelength` (None: none, what pyxel's own models produce)."""
+    if force is not None:          # label KINDS: the lists depend on the detector's shape
+        return dict(y=None if force.get("yk") is None else labels_of(force["yk"], rows, r),
+                    x=None if force.get("xk") is None else labels_of(force["xk"], cols, r),
+                    extra=list(force.get("extra", [])), order=force.get("order", 0))
+    if r.random() < 0.35:
+        return None
+    yk = r.choice([None] + LABEL_KINDS + ["half", "one_based"])
+    xk = r.choice([None] + LABEL_KINDS)
+    if yk is None and xk is None and r.random() < 0.7:
+        yk = r.choice(LABEL_KINDS)
+    extra = [e for e in CUBE_EXTRAS if r.random() < 0.25]
+    return dict(y=None if yk is None else labels_of(yk, rows, r), x=None if xk is None else labels_of(xk, cols, r),
+                extra=extra, order=r.randrange(3), wl_kind=r.choice(["default", "default", "decreasing", "uneven"]))
 
 
 def gen_case_once(r, force=None) -> dict:
@@ -131,8 +226,24 @@ def gen_case_once(r, force=None) -> dict:
     waves = force.get("waves", r.choice([0, 0, 1, 2, 3]))
     nelem = rows * cols * 3
     image_small = debug or (inplace and "image" in buckets)
+    cube = gen_cube(r, rows, cols, force.get("cube")) if (waves and "photon" in buckets) else None
+    # buckets whose dtype CHANGES from step to step (narrower and wider): the values of a step are exact in the dtype
+    # of that step and, mostly, not representable in the narrower dtypes of the other steps
+    change = {}
+    want_change = force.get("change")
+    if n >= 2 and (want_change or (want_change is None and r.random() < 0.3)):
+        cand = [b for b in buckets if b in ("photon", "pixel", "signal", "image")]
+        if isinstance(want_change, (list, tuple)):
+            cand = [b for b in want_change if b in buckets]
+            picked = cand
+        else:
+            picked = r.sample(cand, min(len(cand), r.choice([1, 1, 2]))) if cand else []
+        for b in picked:
+            change[b] = dtype_sequence(r, n, UINTS if b == "image" else FLOATS)
 
-    def per_step(bucket):
+    def per_step(bucket, dt):
+        if bucket in change:
+            return [value_for(r, dt, debug, nelem) for dt in change[bucket]]
         if bucket == "image":
             if image_dt == "uint8" or image_small:
                 hi = 250 - nelem - 7 * n
@@ -141,6 +252,16 @@ def gen_case_once(r, force=None) -> dict:
                 top = UMAX[image_dt] - nelem - 2
                 base = r.choice([r.randrange(1, 200), top - 1000 * n - r.randrange(0, 1000)])
                 stp = r.randrange(1, 1000)
+        elif dt in ("float64", "float32") and r.random() < 0.3:
+            # values a narrower float type does not hold (odd, above 2^11 resp. 2^24): a read-out or a conversion that
+            # narrows the bucket is visible in the VALUES (float dtypes themselves are not judged)
+            if debug:
+                base = r.randrange(2049, 20000) | 1
+            elif dt == "float64":
+                base = value_for(r, "float64", False, nelem)
+            else:
+                base = r.randrange(2049, 2 ** 22) | 1
+            stp = 2 * r.randrange(1, 500)
         else:
             base, stp = r.randrange(1, 120), r.randrange(1, 40)
         return [base + i * stp for i in range(n)]
@@ -154,8 +275,14 @@ def gen_case_once(r, force=None) -> dict:
             dt = "float64"          # Photon.to_xarray converts a cube to float64: the one dtype it could share
         else:
             dt = r.choice(["float16", "float32", "float64"])
-        return dict(kind="write", bucket=bucket, dtype=dt, waves=waves if bucket == "photon" else 0,
-                    mode=mode, idiom=r.randrange(3), per_step=per_step(bucket))
+        a = dict(kind="write", bucket=bucket, dtype=dt, waves=waves if bucket == "photon" else 0,
+                 mode=mode, idiom=r.randrange(3), per_step=per_step(bucket, dt))
+        if bucket in change:
+            a["dtypes"] = list(change[bucket])
+            a["dtype"] = change[bucket][0]
+        if bucket == "photon" and waves and cube is not None:
+            a["cube"] = cube
+        return a
 
     order = list(buckets)
     if r.random() < 0.3:
@@ -168,7 +295,7 @@ def gen_case_once(r, force=None) -> dict:
         if b == "charge" and first == "assign" and r.random() < 0.6:
             first = "iadd"          # Charge.add_charge_array, what pyxel's models do
         acts.append((g, writer(b, first)))
-        if inplace and r.random() < 0.65:
+        if inplace and r.random() < (0.25 if b in change else 0.65):
             for _ in range(r.choice([1, 1, 2, 3])):
                 g = r.randrange(g, 5)
                 acts.append((g, writer(b, r.choice(["iadd", "iadd", "iadd", "iset", "assign"]))))
@@ -294,6 +421,63 @@ def fixed_cases() -> list:
         cs.append(dict(rows=1, cols=2, start=0, times=[8, 16, 24], nondestr=nd, hier=False, debug=True,
                        models=[dict(group="photon_collection", name="wp", actions=[w("photon", "float64", [5, 5, 5])]),
                                dict(group="charge_collection", name="wx", actions=[w("pixel", "float64", [3, 3, 9])]), L()]))
+    # ---- a bucket whose dtype CHANGES between the readouts (round 2b).  The variable of the result has ONE dtype:
+    # the widest of the steps; no slice may be converted to a narrower one.  Values: exact in the dtype of their
+    # step, not representable in the narrower dtypes of the other steps (2^24 + 3 has no float32 value, 2051 and
+    # 70001 no float16 value; 70001 no uint16 value, 301 no uint8 value).
+    BIG = dict(float64=2 ** 24 + 3, float32=2051, float16=5, uint64=2 ** 32 + 7, uint32=70001, uint16=301, uint8=9)
+    fseqs = [["float64", "float32"], ["float64", "float16"], ["float32", "float16"], ["float64", "float32", "float16"],
+             ["float16", "float32", "float64"], ["float64", "float16", "float64"]]
+    k = 0
+    for b, waves, group in (("photon", 0, "photon_collection"), ("photon", 2, "photon_collection"),
+                            ("pixel", 0, "charge_collection"), ("signal", 0, "charge_measurement")):
+        for seq in fseqs:
+            k += 1
+            n = len(seq)
+            big = dict(BIG, float64=70001) if k % 4 == 0 else BIG            # under debug: small enough for np.allclose
+            a = w(b, seq[0], [big[d] + 2 * i for i, d in enumerate(seq)], waves)
+            a["dtypes"] = list(seq)
+            cs.append(dict(rows=1, cols=2, start=0, times=[8 * (i + 1) for i in range(n)], nondestr=(k % 3 == 0),
+                           hier=(k % 2 == 0), debug=(k % 4 == 0),
+                           models=[dict(group=group, name="wd", actions=[a]),
+                                   dict(group="readout_electronics", name="wi", actions=[w("image", "uint16", [7 + i for i in range(n)])]), L()]))
+    for seq in (["uint32", "uint8"], ["uint16", "uint8", "uint16"], ["uint64", "uint32"], ["uint8", "uint16", "uint32"],
+                ["uint64", "uint8", "uint16"]):
+        n = len(seq)
+        a = w("image", seq[0], [BIG[d] + 2 * i for i, d in enumerate(seq)])
+        a["dtypes"] = list(seq)
+        cs.append(dict(rows=1, cols=2, start=0, times=[8 * (i + 1) for i in range(n)], nondestr=False, hier=False, debug=False,
+                       models=[dict(group="charge_collection", name="wx", actions=[w("pixel", "float32", [3 + i for i in range(n)])]),
+                               dict(group="readout_electronics", name="wi", actions=[a]), L()]))
+    # two buckets change at once, in opposite directions; a follow-up writer adds in place (keeps the dtype of the step)
+    a1 = w("pixel", "float64", [2 ** 24 + 3, 2051, 9]); a1["dtypes"] = ["float64", "float32", "float16"]
+    a2 = w("signal", "float16", [9, 2051, 2 ** 24 + 3]); a2["dtypes"] = ["float16", "float32", "float64"]
+    cs.append(dict(rows=2, cols=1, start=4, times=[8, 16, 24], nondestr=True, hier=True, debug=False,
+                   models=[dict(group="charge_collection", name="wx", actions=[a1]),
+                           dict(group="charge_collection", name="wx2", actions=[w("pixel", "float64", [2, 2, 2], mode="iadd")]),
+                           dict(group="charge_measurement", name="ws", actions=[a2]), L()]))
+    # ---- multi-wavelength photons whose cube carries its OWN coordinates (round 2b): y / x labels other than the
+    # indices (pixel centres, 1-based, reversed, shuffled, negative), index-valued labels, further coordinates along y,
+    # x, wavelength, (y, x) and a scalar one, given in several orders.  The result is labelled with the row and column
+    # indices and every other bucket keeps its values.
+    cubes = [dict(y=[0.5, 1.5], x=None, extra=[], order=0), dict(y=[1, 2], x=[1, 2, 3], extra=[], order=1),
+             dict(y=[1, 0], x=[2, 1, 0], extra=["row_mm"], order=2), dict(y=[0, 1], x=[0, 1, 2], extra=["band", "exposure_id"], order=0),
+             dict(y=None, x=[1000, 1010, 1020], extra=["mask", "col_name"], order=1), dict(y=[-1, -2], x=[0.5, 1.5, 2.5], extra=[], order=2),
+             dict(y=None, x=None, extra=["row_mm", "col_name", "band", "mask", "exposure_id"], order=1),
+             dict(y=[1, 2], x=None, extra=[], order=0)]
+    for j, cube in enumerate(cubes):
+        n = 1 + j % 3
+        ps = lambda base: [base + 9 * i for i in range(n)]  # noqa: E731
+        p1 = w("photon", "float64" if j % 2 else "float32", ps(1), 2, "assign"); p1["cube"] = cube
+        p2 = w("photon", "float64", ps(40), 2, "iadd" if j % 2 else "iset"); p2["cube"] = cube
+        cs.append(dict(rows=2, cols=3, start=0, times=[8 * (i + 1) for i in range(n)], nondestr=(j % 2 == 1), hier=(j % 4 == 2),
+                       debug=(j % 3 == 1),
+                       models=[dict(group="photon_collection", name="wp", actions=[p1])]
+                              + ([dict(group="photon_collection", name="wp2", actions=[p2])] if j >= 4 else [])
+                              + [dict(group="charge_generation", name="wc", actions=[w("charge", "float64", ps(2), mode="iadd")]),
+                                 dict(group="charge_collection", name="wx", actions=[w("pixel", "float32", ps(3))]),
+                                 dict(group="charge_measurement", name="ws", actions=[w("signal", "float64", ps(4))]),
+                                 dict(group="readout_electronics", name="wi", actions=[w("image", "uint16", ps(500))]), L()]))
     return cs
 
 
@@ -318,6 +502,58 @@ def exhaustive_cases() -> list:
                                         models=[dict(group="photon_collection", name="e0", actions=[w(m0, 3, 0)]),
                                                 dict(group="charge_generation", name="e1", actions=[w(m1, 40, 1)]),
                                                 dict(group="charge_collection", name="e2", actions=[w(m2, 500, 2)]), L()]))
+    return out
+
+
+def exhaustive_dtype_cases() -> list:
+    """Thorough tier: EVERY ordered pair of float dtypes for the four float container kinds, every triple for the pixel
+    array, every ordered pair and every triple of distinct unsigned dtypes for the image; the value of a step is exact in
+    the dtype of that step and has no value in any narrower type."""
+    import itertools
+    L = last_model
+    BIG = dict(float64=2 ** 24 + 3, float32=2051, float16=5, uint64=2 ** 32 + 7, uint32=70001, uint16=301, uint8=9)
+    out = []
+
+    def case(b, waves, group, seq, k):
+        n = len(seq)
+        a = dict(kind="write", bucket=b, dtype=seq[0], waves=waves, mode="assign", idiom=0,
+                 per_step=[BIG[d] + 2 * i for i, d in enumerate(seq)], dtypes=list(seq))
+        return dict(rows=1, cols=2, start=0, times=[8 * (i + 1) for i in range(n)], nondestr=(k % 2 == 0), hier=(k % 3 == 0),
+                    debug=False, models=[dict(group=group, name="wd", actions=[a]), L()])
+    k = 0
+    for b, waves, group in (("photon", 0, "photon_collection"), ("photon", 2, "photon_collection"),
+                            ("pixel", 0, "charge_collection"), ("signal", 0, "charge_measurement")):
+        seqs = list(itertools.product(FLOATS, repeat=2))
+        if b == "pixel":
+            seqs += list(itertools.product(FLOATS, repeat=3))
+        for seq in seqs:
+            k += 1
+            out.append(case(b, waves, group, seq, k))
+    for seq in list(itertools.product(UINTS, repeat=2)) + list(itertools.permutations(UINTS, 3)):
+        k += 1
+        out.append(case("image", 0, "readout_electronics", seq, k))
+    return out
+
+
+def exhaustive_cube_cases() -> list:
+    """Thorough tier: every kind of y labels x every kind of x labels a photon cube can carry (none, the indices,
+    1-based, reversed, pixel centres, large, negative, shuffled), all five buckets written, one readout."""
+    import random
+    L = last_model
+    r = random.Random(7)
+    w = lambda b, dt, v, waves=0: dict(kind="write", bucket=b, dtype=dt, waves=waves, mode="assign", idiom=0, per_step=[v])  # noqa: E731
+    out = []
+    for j, yk in enumerate([None] + LABEL_KINDS):
+        for i, xk in enumerate([None] + LABEL_KINDS):
+            p = w("photon", "float64", 1, 2)
+            p["cube"] = dict(y=None if yk is None else labels_of(yk, 2, r), x=None if xk is None else labels_of(xk, 3, r),
+                             extra=[CUBE_EXTRAS[(i + j) % len(CUBE_EXTRAS)]] if (i + j) % 2 else [], order=(i + j) % 3)
+            out.append(dict(rows=2, cols=3, start=0, times=[8], nondestr=False, hier=(i % 2 == 0), debug=(j % 4 == 0),
+                            models=[dict(group="photon_collection", name="wp", actions=[p]),
+                                    dict(group="charge_generation", name="wc", actions=[dict(w("charge", "float64", 20), mode="iadd")]),
+                                    dict(group="charge_collection", name="wx", actions=[w("pixel", "float32", 30)]),
+                                    dict(group="charge_measurement", name="ws", actions=[w("signal", "float64", 40)]),
+                                    dict(group="readout_electronics", name="wi", actions=[w("image", "uint16", 500)]), L()]))
     return out
 
 
@@ -360,7 +596,11 @@ def c_payload(p) -> str:
 def c_action(a) -> str:
     k = a["kind"]
     if k == "write":
-        return (f"AWrite {{| w_bucket := {CB[a['bucket']]}; w_dt := {CDT[a['dtype']]}; w_waves := {core.cz(a.get('waves', 0))}; "
+        cube = a.get("cube") or {}
+        lab = lambda v: "None" if v is None else f"(Some {zl(to_int(x) for x in v)})"  # noqa: E731
+        return (f"AWrite {{| w_bucket := {CB[a['bucket']]}; w_dt := {CDT[a['dtype']]}; "
+                f"w_dts := {core.clist(CDT[d] for d in (a.get('dtypes') or []))}; w_waves := {core.cz(a.get('waves', 0))}; "
+                f"w_ylab := {lab(cube.get('y'))}; w_xlab := {lab(cube.get('x'))}; "
                 f"w_mode := {CMODE[a.get('mode', 'assign')]}; w_per_step := {zl(a['per_step'])} |}}")
     if k == "data":
         return f"AData {core.cstr(a['key'])} {zl(a['per_step'])}"
@@ -404,7 +644,7 @@ def c_otree(t) -> str:
     children = list(t["children"]) + (["?unknown_variable"] if extra else [])
     inter = "None" if t["inter"] is None else f"(Some {core.clist(c_inode(nd) for nd in t['inter'])})"
     return (f"(Some {{| o_bucket_path := {core.cstr(t['bucket_path'])}; o_children := {core.clist(core.cstr(c) for c in children)}; "
-            f"o_time := {zl(t['time'])}; o_y := {zl(t['y'])}; o_x := {zl(t['x'])}; o_vars := {core.clist(vs)}; "
+            f"o_time := {zl(t['time'])}; o_y := {zl(t['y'])}; o_x := {zl(t['x'])}; o_wl := {zl(t.get('wl', []))}; o_vars := {core.clist(vs)}; "
             f"o_inter := {inter}; o_scene := {c_payload(t['scene'])}; o_data := {c_payload(t['data'])} |}})")
 
 
@@ -420,7 +660,7 @@ def emit_case(c, o) -> str:
             f"k_nondestr := {core.cbool(c['nondestr'])}; k_hier := {core.cbool(c['hier'])}; k_debug := {core.cbool(c['debug'])};\n"
             f"   k_models := {core.clist(c_model(m) for m in models)};\n"
             f"   k_result := {c_otree(o['result'])};\n   k_result_nodebug := {c_otree(o.get('result_nodebug'))};\n"
-            f"   k_snaps := {snaps};\n   k_scene_seen := {c_payload(o['scene_seen'])}; k_data_seen := {c_payload(o['data_seen'])};\n"
+            f"   k_snaps := {snaps};\n   k_wl := {core.clist(zl(w) for w in o.get('wl_seen', []))};\n   k_scene_seen := {c_payload(o['scene_seen'])}; k_data_seen := {c_payload(o['data_seen'])};\n"
             f"   k_mrecs := {core.clist(c_mrec(m) for m in o['mrecs'])} |}}")
 
 
@@ -464,9 +704,66 @@ def image_info(c):
     for m in c["models"]:
         for a in m["actions"]:
             if a.get("kind") == "write" and a["bucket"] == "image":
-                dts.add(a["dtype"])
+                dts.update(a.get("dtypes") or [a["dtype"]])
                 mx = max(mx, max(a["per_step"]) + c["rows"] * c["cols"])
     return dts, mx
+
+
+WIDTH = dict(uint8=8, uint16=16, uint32=32, uint64=64, float16=16, float32=32, float64=64)
+
+
+def slices_detail(c, o) -> list:
+    """Which parts of the bucket node differ from the recorder's snapshots (classification of a clause-2 violation
+    only; the decision was taken inside Coq)."""
+    res = o.get("result") or {}
+    out = []
+    if res.get("time") != [c["start"] + t for t in c["times"]] or [l for l, _ in o["snaps"]] != res.get("time"):
+        out.append("time")
+    if res.get("y") != list(range(c["rows"])) or res.get("x") != list(range(c["cols"])):
+        out.append("coords")
+    seen = o.get("wl_seen") or []
+    if seen and seen[0] and all(w == seen[0] for w in seen) and res.get("wl") != seen[0]:
+        out.append("wavelength")
+    got = {v["name"]: v for v in res.get("vars", [])}
+    for b in BUCKETS:
+        want = [s.get(b) for _, s in o["snaps"]]
+        v = got.get(b)
+        if v is None:
+            out.append(f"missing:{b}")
+            continue
+        if all(w is None for w in want):
+            if v["dims"] != ["time"] or v["vals"]:
+                out.append(f"values:{b}")
+            continue
+        if any(w is None for w in want) and b == "image":
+            continue                                    # not judged
+        k = None
+        flat = []
+        for w in want:
+            if w is None:
+                flat += [SENTINEL] * (k or 0)
+            else:
+                k = len(w[2])
+                flat += [to_int(x) for x in w[2]]
+        first = next(w for w in want if w is not None)
+        if v["shape"] != [len(want)] + list(first[1]):
+            out.append(f"shape:{b}")
+        elif any(w is None for w in want):
+            # NaN slices: compare the initialised ones only
+            n_el = len(first[2])
+            ok = True
+            for i, w in enumerate(want):
+                chunk = v["vals"][i * n_el:(i + 1) * n_el]
+                ok &= (chunk == [to_int(x) for x in w[2]]) if w is not None else all(x == SENTINEL for x in chunk)
+            if not ok:
+                out.append(f"values:{b}")
+        elif v["vals"] != flat:
+            out.append(f"values:{b}")
+        if b == "image" and all(w is not None for w in want):
+            widest = max((w[0] for w in want), key=lambda d: WIDTH.get(d, 0))
+            if v["dtype"] != widest:
+                out.append("dtype:image")
+    return out
 
 
 def classify(c, o, clause: int) -> dict:
@@ -493,6 +790,15 @@ def classify(c, o, clause: int) -> dict:
                 sig["input"] = "other"
         else:
             sig["input"] = "other"
+        detail = slices_detail(c, o)
+        if sig["input"] == "other":
+            # the image's unsigned type differs between the readouts and a later one is narrower; only the image differs
+            idt = [s["image"][0] if s.get("image") else None for _, s in o["snaps"]]
+            if (all(d in UMAX for d in idt) and any(WIDTH[idt[j]] < WIDTH[idt[i]] for i in range(len(idt)) for j in range(i + 1, len(idt)))
+                    and detail and set(detail) <= {"values:image", "dtype:image"}):
+                sig["input"] = "image_dtype_narrows_between_readouts"
+            else:
+                sig["detail"] = "+".join(detail) or "?"
     elif clause == 6:
         sig["input"] = "other"
         res = o.get("result") or {}
@@ -546,7 +852,7 @@ def brief(o) -> dict:
     r = o.get("result")
     if r is None:
         return dict(error=o.get("error"))
-    return dict(bucket_path=r["bucket_path"], children=r["children"], time=r["time"], y=r["y"], x=r["x"],
+    return dict(bucket_path=r["bucket_path"], children=r["children"], time=r["time"], y=r["y"], x=r["x"], wavelength=r.get("wl", []),
                 vars=[dict(name=v["name"], dtype=v["dtype"], dims=v["dims"], shape=v["shape"], vals=v["vals"][:24]) for v in r["vars"]],
                 inter=None if r["inter"] is None else [dict(step=n["step"], group=n["group"], name=n["name"],
                                                              vars={v["name"]: v["vals"][:8] for v in n["vars"]}) for n in r["inter"]],
@@ -637,7 +943,10 @@ def run(ctx: Ctx):
     ctx.assumptions += [
         "labels on a dyadic grid (1/8 s); the driver uses strictly increasing readout times (what Readout accepts), the "
         "theorems need no ordering",
-        "C03_slices: image initialised in no step or in every step with one dtype (any values)",
+        "C03_slices: image initialised in no step or in every step, with any unsigned types (they may differ between the steps) "
+        "and any values; float buckets with any float types, which may differ between the steps",
+        "C03_coords: every to_xarray sets the y / x coordinates (C03_source_tables); at least one variable in some step",
+        "the wavelength labels of the result are judged (= those of the cubes the detector held) but not predicted by the model",
         "C03_slices / C03_debug_nodes: every to_xarray copies the container's buffer (C03_readouts_copy, table in Model/Result.v)",
         "a float bucket initialised in some steps only: judged (its slices equal the snapshots where it was initialised, all-NaN "
         "where it was not); an integer image missing at some step goes through NaN and a cast: recorded, not judged",
@@ -647,10 +956,16 @@ def run(ctx: Ctx):
 
     r = ctx.rng("cases")
     cases = fixed_cases()
-    budget = ctx.budget(160, 1200)
+    budget = ctx.budget(200, 1000)
     aimed = [dict(buckets=["photon", "signal", "pixel"], n=3, partial=True), dict(buckets=["photon"], n=4, partial=True, debug=True),
              dict(buckets=["signal", "image"], n=2, partial=True), dict(buckets=["pixel"], n=3), dict(buckets=["photon", "signal"], n=2), dict(debug=True, n=3),
-             dict(debug=True, nondestr=True, n=2), dict(scene=True, hier=False), dict(data=True, n=4)]
+             dict(debug=True, nondestr=True, n=2), dict(scene=True, hier=False), dict(data=True, n=4),
+             dict(buckets=["photon", "pixel", "signal"], n=3, change=["pixel", "signal"], debug=False),
+             dict(buckets=["photon", "pixel"], n=2, change=["photon"], waves=0), dict(buckets=["photon", "image"], n=4, change=["photon", "image"], waves=2),
+             dict(buckets=["pixel", "image"], n=3, change=["image"], debug=True), dict(buckets=["signal"], n=5, change=["signal"], nondestr=True),
+             dict(buckets=["photon", "charge", "pixel", "signal", "image"], n=2, waves=1, cube=dict(yk="half", xk=None)),
+             dict(buckets=["photon", "pixel", "image"], n=3, waves=3, debug=True, cube=dict(yk="one_based", xk="reversed", extra=["mask"])),
+             dict(buckets=["photon", "charge"], n=1, waves=2, cube=dict(yk=None, xk="big", order=1))]
     for f in aimed:
         cases.append(gen_case(r, f))
     while len(cases) < budget:
@@ -658,6 +973,12 @@ def run(ctx: Ctx):
     if not ctx.quick:
         ex = exhaustive_cases()
         ctx.cov["exhaustive_writer_sequences"] = len(ex)
+        cases += ex
+        ex = exhaustive_dtype_cases()
+        ctx.cov["exhaustive_dtype_sequences"] = len(ex)
+        cases += ex
+        ex = exhaustive_cube_cases()
+        ctx.cov["exhaustive_cube_label_kinds"] = len(ex)
         cases += ex
     pairs, mism, viol = evaluate(ctx, cases)
     seen = set()
@@ -680,6 +1001,16 @@ def run(ctx: Ctx):
                         ctx.dist("initialised_in_some_steps_only", a["bucket"] + ("_3d" if a.get("waves") else ""))
                     if a["bucket"] != "image":
                         ctx.dist("float_dtype", a["dtype"])
+                    if a.get("dtypes"):
+                        seq = a["dtypes"]
+                        order = UINTS if a["bucket"] == "image" else FLOATS
+                        narrows = any(order.index(seq[j]) < order.index(seq[i]) for i in range(len(seq)) for j in range(i + 1, len(seq)))
+                        ctx.dist("dtype_changes_between_steps", a["bucket"] + ("_3d" if a.get("waves") else "") + ("/narrows" if narrows else "/widens"))
+                    if a.get("waves"):
+                        cube = a.get("cube")
+                        ctx.dist("cube_coordinates", "none" if not cube else
+                                 ("y" if cube.get("y") is not None else "") + ("x" if cube.get("x") is not None else "")
+                                 + ("+extra" if cube.get("extra") else "") or "none")
                 elif a.get("kind") in ("data", "scene"):
                     ctx.dist("bucket_written", a["kind"])
         per_b = {}
@@ -702,6 +1033,7 @@ def run(ctx: Ctx):
         ctx.sample(dict(case=c, returned=brief(o)))
     known = core.load_findings(ctx.prop)
     reported = set()
+    shrunk = 0
     for i in sorted(viol):
         c, o = pairs[i]
         for clause in viol[i]:
@@ -716,7 +1048,9 @@ def run(ctx: Ctx):
                 continue
             reported.add(key)
             reported.add(key + "k")
-            ctx.violations.append(to_violation(ctx, c, o, clause, do_shrink=not is_known))
+            # every class is reported with its concrete input; the first few are minimised as well
+            ctx.violations.append(to_violation(ctx, c, o, clause, do_shrink=not is_known and shrunk < 4))
+            shrunk += 0 if is_known else 1
     (ctx.build / "mismatches.json").write_text(json.dumps([dict(case=pairs[i][0], observed=brief(pairs[i][1])) for i in mism], indent=1))
     for i in mism[:5]:
         c, o = pairs[i]
@@ -754,7 +1088,7 @@ def search(ctx: Ctx):
             if key in done or any(core.finding_matches(e, v0) for e in known):
                 continue
             done.add(key)
-            ctx.violations.append(to_violation(ctx, c, o, clause))
+            ctx.violations.append(to_violation(ctx, c, o, clause, do_shrink=len(done) <= 3))
     ctx.cov["search_cases"] = len(pairs)
 
 
@@ -791,18 +1125,25 @@ META = dict(
         "layouts, debug capture before/after each model, read-outs that copy or share the container's buffer): the "
         "concatenation loses and invents no slice; the result holds exactly one slice per readout, in order, labelled "
         "start + t_i and equal to the detector's state at the end of that step -- every uint64 image value included; the "
-        "image keeps its unsigned dtype; layouts agree; scene/data pass through; debug does not alter the result and the node "
+        "image keeps its unsigned dtype -- when the dtype of a bucket differs between the readouts (float16/32/64, uint8..64) the "
+        "variable has numpy's common type of its slices and every slice keeps its values and shape (no slice is ever converted "
+        "to a narrower type); the bucket node is labelled with the row and column indices whatever coordinates a photon cube "
+        "carries, provided every read-out sets them (proved of the table regenerated from the code); layouts agree; scene/data "
+        "pass through; debug does not alter the result and the node "
         "of EVERY model (the first of a step included) holds exactly the buckets it changed, provided every read-out copies "
         "(proved of the table of the code; witnesses show each copy is needed). That pyxel's code behaves like the model is "
         "established by correspondence (testing): the DataTree returned by pyxel.run_mode for generated writer pipelines "
-        "(in-place and re-assigning writers of all six container kinds, several per step) is compared inside Coq with the "
+        "(in-place and re-assigning writers of all six container kinds, several per step; dtypes that change from step to step "
+        "with values the narrower types do not hold; multi-wavelength cubes carrying their own y / x / further coordinates) is "
+        "compared inside Coq with the "
         "model's prediction and judged against the specification using the snapshots of a last-running recorder probe and "
         "the before/after records of every model."),
     level_note=(
         "Trusted: Coq kernel + vm_compute; the correspondence harness, driver and probes; xarray concat / DataTree, numpy "
         "casts, in-place arithmetic and np.allclose are modelled, not verified. Time labels are integers on a 1/8 s grid and "
-        "array values are integers exactly representable in their dtype. Buckets initialised in some steps only (NaN-filled by "
-        "xarray) and the wavelength coordinate values are not judged."),
+        "array values are integers exactly representable in the dtype of their step. An integer image that is missing at some "
+        "step (NaN-filled, then cast) is not judged; photon cubes whose wavelength labels differ between the steps are not "
+        "generated."),
     technique="Coq proof over an executable result-assembly model + in-Coq correspondence/specification evaluation",
     design_ref="DESIGN.md section 6, C03",
 )
